@@ -114,6 +114,7 @@ func (f *Frame) callStatic(b *ssa.BasicBlock, in *ssa.Call, callee *ssa.Function
 		for _, h := range e.mayWriteNames(callee) {
 			st.heap[h] = e.freshConst(h, e.heapSort[h])
 		}
+		e.canonAfterHavoc(st, e.mayWriteNames(callee))
 		na := e.freshConst("alloc", "Int")
 		e.assume(app("<=", st.alloc, na))
 		st.alloc = na
@@ -181,14 +182,20 @@ func (f *Frame) inlineCall(callee *ssa.Function, args []Val, binds []Val, st *St
 			continue
 		}
 		c := e.freshConst(h, e.heapSort[h])
-		for _, r := range nf.rets {
-			e.assume(implies(r.guard, eq(c, r.st.H(h))))
+		chain := nf.rets[len(nf.rets)-1].st.H(h)
+		for k := len(nf.rets) - 2; k >= 0; k-- {
+			chain = ite(nf.rets[k].guard, nf.rets[k].st.H(h), chain)
 		}
+		e.assume(eq(c, chain))
 		st.heap[h] = c
 	}
 	ac := e.freshConst("alloc", "Int")
-	for _, r := range nf.rets {
-		e.assume(implies(r.guard, eq(ac, r.st.alloc)))
+	{
+		chain := nf.rets[len(nf.rets)-1].st.alloc
+		for k := len(nf.rets) - 2; k >= 0; k-- {
+			chain = ite(nf.rets[k].guard, nf.rets[k].st.alloc, chain)
+		}
+		e.assume(eq(ac, chain))
 	}
 	st.alloc = ac
 	for _, r := range nf.rets {
@@ -208,12 +215,19 @@ func (f *Frame) inlineCall(callee *ssa.Function, args []Val, binds []Val, st *St
 			return first
 		}
 		c := e.freshConst(fmt.Sprintf("%s_ret%d", nf.id, i), e.sortOf(t))
-		for _, r := range nf.rets {
+		chain := ""
+		for k := len(nf.rets) - 1; k >= 0; k-- {
+			r := nf.rets[k]
 			if r.vals[i].LV != nil {
 				fail("%s: interior pointer returned", callee)
 			}
-			e.assume(implies(r.guard, eq(c, r.vals[i].T)))
+			if chain == "" {
+				chain = r.vals[i].T
+			} else {
+				chain = ite(r.guard, r.vals[i].T, chain)
+			}
 		}
+		e.assume(eq(c, chain))
 		return Val{T: c}
 	}
 	switch rs.Len() {
@@ -322,6 +336,32 @@ func (f *Frame) evalModEntry(n *Node, ctx *SpecCtx) []modEntry {
 					out = append(out, modEntry{heap: e.ptrHeap(pt.Elem()), ref: x.T})
 				}
 			case "call":
+				if n.Name == "maps" && len(n.Args) == 1 && n.Args[0].Kind == "str" {
+					// maps("map[K]V"): any map of that type may change
+					t := ctx.resolveType(n.Args[0].Name)
+					md, mv := e.mapHeaps(t)
+					out = append(out, modEntry{heap: md}, modEntry{heap: mv})
+					return out
+				}
+				if n.Name == "arrays" && len(n.Args) == 1 && n.Args[0].Kind == "str" {
+					// arrays("T"): any backing array of []T may change
+					out = append(out, modEntry{heap: e.arrHeap(ctx.resolveType(n.Args[0].Name))})
+					return out
+				}
+				if n.Name == "fields" && len(n.Args) == 2 && n.Args[0].Kind == "str" && n.Args[1].Kind == "str" {
+					// fields("T", "f"): field f of any object of struct type T may change
+					t := ctx.resolveType(n.Args[0].Name)
+					st, ok := isStruct(t)
+					if !ok {
+						fail("modifies: fields() needs a struct type")
+					}
+					for i := 0; i < st.NumFields(); i++ {
+						if st.Field(i).Name() == n.Args[1].Name {
+							out = append(out, modEntry{heap: e.fieldHeap(t, i)})
+						}
+					}
+					return out
+				}
 				if n.Name == "heap" && len(n.Args) == 1 && n.Args[0].Kind == "str" {
 					// heap("name"): whole heap may change
 					out = append(out, modEntry{heap: n.Args[0].Name, ref: ""})
@@ -363,9 +403,9 @@ func (f *Frame) frameFact(h string, mods []modEntry, before, after *State, alloc
 		}
 	}
 	if len(excl) == 0 {
-		return fmt.Sprintf("(forall ((%s Int)) (! (=> (< %s %s) (= (select %s %s) (select %s %s))) :pattern ((select %s %s))))", r, r, allocBefore, ha, r, hb, r, ha, r)
+		return fmt.Sprintf("(forall ((%s Int)) (! (=> (< %s %s) (= (select %s %s) (select %s %s))) :pattern ((select %s %s)) :qid frame_%s))", r, r, allocBefore, ha, r, hb, r, ha, r, sanitize(h))
 	}
-	return fmt.Sprintf("(forall ((%s Int)) (! (=> (and (< %s %s) %s) (= (select %s %s) (select %s %s))) :pattern ((select %s %s))))", r, r, allocBefore, and(excl...), ha, r, hb, r, ha, r)
+	return fmt.Sprintf("(forall ((%s Int)) (! (=> (and (< %s %s) %s) (= (select %s %s) (select %s %s))) :pattern ((select %s %s)) :qid framex_%s))", r, r, allocBefore, and(excl...), ha, r, hb, r, ha, r, sanitize(h))
 }
 
 func (f *Frame) contractCall(b *ssa.BasicBlock, in *ssa.Call, callee *ssa.Function, sp *FuncSpec, args []Val, st *State, g string) Val {
@@ -410,6 +450,7 @@ func (f *Frame) contractCall(b *ssa.BasicBlock, in *ssa.Call, callee *ssa.Functi
 	for _, h := range writes {
 		e.assume(implies(g, f.frameFact(h, mods, before, st, before.alloc)))
 	}
+	e.canonAfterHavoc(st, writes)
 	rs := callee.Signature.Results()
 	res := f.resultVal(sanitize(callee.Name()), rs)
 	var rvals []Val
@@ -570,7 +611,18 @@ func (f *Frame) builtin(b *ssa.BasicBlock, in *ssa.Call, c *ssa.CallCommon, bi *
 		mt := c.Args[0].Type().Underlying().(*types.Map)
 		md, _ := e.mapHeaps(mt)
 		m := args[0].T
+		d0 := sel(st.H(md), m)
+		_, mvh := e.mapHeaps(mt)
+		v0d := sel(st.H(mvh), m)
 		f.setHeap(st, md, sto(st.H(md), m, sto(sel(st.H(md), m), args[1].T, "false")))
+		f.setHeap(st, mvh, sto(st.H(mvh), m, sto(v0d, args[1].T, e.zero(mt.Elem()))))
+		if _, mv := e.mapHeaps(mt); e.declared["seq$Str"] && e.heapSort[mv] == "(Array Int (Array Str Str))" {
+			// instance of the bagv removal lemma (seq_Str.smt2)
+			v0 := v0d
+			b0 := app("bagvS", d0, v0)
+			k := args[1].T
+			e.assume(eq(app("bagvS", sel(st.H(md), m), sel(st.H(mv), m)), ite(sel(d0, k), sto(b0, sel(v0, k), app("-", sel(b0, sel(v0, k)), "1")), b0)))
+		}
 		return Val{}
 	case "print", "println":
 		return Val{}
@@ -687,6 +739,17 @@ func (f *Frame) builtinCopy(b *ssa.BasicBlock, in *ssa.Call, c *ssa.CallCommon, 
 	}
 	e.assume(fmt.Sprintf("(forall ((%s Int)) (! (= (select %s %s) (ite (and (<= %s %s) (< %s (+ %s %s))) %s (select %s %s))) :pattern ((select %s %s))))",
 		i, cc, i, doff, i, i, doff, n, src, old, i, cc, i))
+	if es == "Str" && !isStr && e.declared["seq$Str"] {
+		// instance of lemma SPLICE for the idiom copy(s[p:], s[p+1:]) (same array, source one position ahead):
+		// the new contents are the old ones with position p removed
+		lo, h1 := e.fresh("lo!sp"), e.fresh("h1!sp")
+		p0 := doff
+		hi := app("+", doff, n, "1")
+		cond := and(eq(darr, app("s_arr", s.T)), eq(app("s_off", s.T), app("+", doff, "1")), app(">=", n, "0"))
+		ob := app("bagS", old, lo, hi)
+		e.assume(implies(cond, fmt.Sprintf("(forall ((%s Int) (%s Int)) (! (=> (and (<= %s %s) (= %s (- %s 1))) (= (bagS %s %s %s) (store %s (select %s %s) (- (select %s (select %s %s)) 1)))) :pattern ((bagS %s %s %s)) :qid splice_site))",
+			lo, h1, lo, p0, h1, hi, cc, lo, h1, ob, old, p0, ob, old, p0, cc, lo, h1)))
+	}
 	f.setHeap(st, h, sto(st.H(h), darr, cc))
 	return Val{T: n}
 }
